@@ -34,6 +34,8 @@ def lua_sources(ctx, rnd):
     for fn in sorted(os.listdir(os.path.join(core.VERIF, 'fixtures', 'lua'))):
         if fn != 'lexer_valid.lua':
             out.append(open(os.path.join(core.VERIF, 'fixtures', 'lua', fn), 'rb').read())
+    # the same sources as a Windows editor saves them (CR LF also inside multi-line strings and comments)
+    out += [x.replace(b'\r\n', b'\n').replace(b'\n', b'\r\n') for x in out if b'\n' in x and len(x) < 6000]
     return out
 
 
